@@ -90,6 +90,11 @@ claimed = {
   ref="DESIGN.md §3 C14",
   bounds=["source: genesis + 4 (quick) / 5 (thorough) vertices, all shapes, map iteration orders of maps with <=3 entries", "corruptions: 7 kinds x every position on all 4-vertex shapes"],
   outside=["the gRPC transport (C15/C19 cover the receive path and the mapping)", "a truncated source cannot be synced from: known finding", "LoadDag does not verify signatures (honest-peer assumption of the protocol)", "LoadDag racing with admissions"]),
+ "C02": dict(
+  text="Ledgers built by the REAL operations from a genesis ledger: (chain) 3 (quick) / 4 (thorough) successive CreateLeaf proposals with enumerated party patterns (A->B, B->A, A->A, B->C) and symbolic amounts: on the confirmed set (live vertices with a child) no wallet has spent more than it received (unbounded integers over the harness' own record of what was offered) and the balances the node reports for all wallets add up to the genesis supply; (merge) two sibling spends, one proposed locally and one delivered by gossip from another node, then a proposal merging both tips: each confirmed spend is covered in its own history (must hold) while the union may overdraw (pinned known finding).",
+  ref="DESIGN.md §3 C02",
+  bounds=["chain: 3 (quick) / 4 (thorough) proposals, 4 party patterns each, all canonical amounts with currency < 2^59", "merge: one 3-operation scenario with symbolic amounts"],
+  outside=["more nodes / longer interleavings of proposals and gossip (the two-node case is the merge scenario: the second node's vertex arrives by AddLeaf)", "truncation inside the history (C07 checks the checkpoint arithmetic)", "trusted sealing nodes"]),
 }
 
 NA_DEFAULT = "check not built yet in this session; see DESIGN.md §6 build order"
